@@ -43,11 +43,11 @@ def setup(ctx, rng, res, n_pool=2):
     return keys, tree, rn, ops, impl
 
 
-def one_off_fault(res, rng, tree, rn, accepted_ids, si):
+def one_off_fault(res, rng, tree, rn, accepted_ids, si, unvalidated_pending=False):
     """'an error while applying it': a valid block whose validation raises once (injected), then the same block again
     without the fault, then a child of it; monitors only (the operations are not sent to the model)"""
     head = rn.cm.coinstate.current_chain_hash
-    if head not in tree.own or rn.cm.coinstate is not rn.cm.last_known_valid_coinstate:
+    if head not in tree.own or unvalidated_pending:
         return
     b1 = tree.extend(head)
     b2 = tree.extend(b1.hash())
@@ -105,6 +105,7 @@ def run(ctx):
         accepted_ids = []
         sig_mark = len(keys.oracle)
         forced_curve = False
+        unvalidated_pending = [False]
         for di in range(n_deliv):
             choice = rng.random()
             kind = None
@@ -168,7 +169,7 @@ def run(ctx):
             prior = rn.cm.coinstate
             # blocks adopted without validation (bulk download) are dropped again by the roll-back that follows any
             # rejected delivery: while some are pending, "no trace" cannot be read off the digest
-            pending_unvalidated = rn.cm.coinstate is not rn.cm.last_known_valid_coinstate
+            pending_unvalidated = unvalidated_pending[0]          # tracked by the harness, not read from the node
             before = rn.digest()
             frames_before = [list(rn.outbox_kinds(p)) for p in rn.peers]
             r = rn.deliver_block(0, blk, irt)
@@ -184,6 +185,8 @@ def run(ctx):
             if irt != 0:
                 # bulk-download path: compared with the model only (C09 speaks about deliveries outside bulk download)
                 res.count("delivery:" + kind)
+                if blk.hash() in rn.cm.coinstate.block_by_hash and blk.height % 10000 != 0:
+                    unvalidated_pending[0] = True
                 continue
             res.count("delivery:" + kind.split(":")[0])
             if kind.startswith("broken:"):
@@ -197,6 +200,8 @@ def run(ctx):
                 fully_valid = True
             except Exception:
                 fully_valid = False
+            if entered or after != before:
+                unvalidated_pending[0] = False        # a validated acceptance, or the roll-back after a rejection
             if entered:
                 known.add(blk.hash())
                 accepted_ids.append(blk.hash())
@@ -225,7 +230,7 @@ def run(ctx):
                 res.sample({"delivery": kind, "result": r, "entered": entered})
         ops.append("node digest")
         impl.append(rn.digest())
-        one_off_fault(res, rng, tree, rn, accepted_ids, si)      # monitors only: not mirrored in the model
+        one_off_fault(res, rng, tree, rn, accepted_ids, si, unvalidated_pending[0])      # monitors only: not mirrored in the model
         ok = rn.store_ok()
         if ok is not True:
             res.violations.append({"kind": "the block store is impaired after the sequence", "error": ok, "scenario": si})
